@@ -4,6 +4,9 @@ STUB_NOTES = ['std::string::_M_replace: C model by contract (engine/vmodels.h) -
 STUBS = ['_ZNSt7__cxx1112basic_stringIcSt11char_traitsIcESaIcEE10_M_replaceEmmPKcm', '_ZNSt7__cxx1112basic_stringIcSt11char_traitsIcESaIcEE9_M_mutateEmmPKcm']
 def jobs(tier):
     J = []
+    import os
+    if not os.environ.get('VERIF_EXPERIMENTAL'):
+        return J   # measured (DESIGN 6.3): no job of this kernel gives a verdict within 40 min / 8 GB (the real JSON parser automaton); registered checks do not run it, nothing is claimed from it
     if tier != 'thorough':
         return J   # 2-15 min of symbolic execution per job: thorough tier only (DESIGN 6.3)
     for l in (1, 2, 3):
